@@ -247,7 +247,7 @@ pub fn gen_c19_canonical(rng: &mut Rng) -> Case {
     if opts.check {
         opts.output_format = rng.pick(&[None, Some("unified"), Some("json"), Some("summary")]).map(|s| s.to_string());
     }
-    let inv = Invocation { opts, stdin: None, faults: vec![], sched: random_sched(rng), dir_key: rng.next() };
+    let inv = Invocation { opts, stdin: None, faults: vec![], sched: random_sched(rng), dir_key: rng.next(), pre_edits: vec![] };
     Case { family: "c19-canonical".into(), world: w, invs: vec![inv] }
 }
 
@@ -470,8 +470,27 @@ pub fn gen_status(rng: &mut Rng) -> Case {
     let mut faults = Vec::new();
     let sel = model::select(&w, &opts);
     if healthy {
-        let inv = Invocation { opts, stdin: None, faults, sched: random_sched(rng), dir_key: rng.next() };
-        return Case { family: "status-healthy".into(), world: w, invs: vec![inv] };
+        let inv = Invocation { opts: opts.clone(), stdin: None, faults, sched: random_sched(rng), dir_key: rng.next(), pre_edits: vec![] };
+        let mut invs = vec![inv];
+        if rng.chance(30) {
+            // check again after the user has edited one of the files: the verdict follows the tree
+            let cands: Vec<&String> = sel.selected.iter().collect();
+            if !cands.is_empty() {
+                let f: &String = rng.pick(&cands);
+                let new = if rng.chance(70) { rng.pick(UNFORMATTED).as_bytes().to_vec() } else { b"local ok = true\n".to_vec() };
+                let mut o2 = opts.clone();
+                o2.num_threads = random_threads(rng);
+                invs.push(Invocation {
+                    opts: o2,
+                    stdin: None,
+                    faults: vec![],
+                    sched: random_sched(rng),
+                    dir_key: rng.next(),
+                    pre_edits: vec![(f.to_string(), new)],
+                });
+            }
+        }
+        return Case { family: "status-healthy".into(), world: w, invs };
     }
     if rng.chance(30) {
         let cands: Vec<&String> = sel.selected.iter().collect();
@@ -499,7 +518,7 @@ pub fn gen_status(rng: &mut Rng) -> Case {
         let (kind, arg) = rng.pick(&[("EINTR", 0u64), ("short", 1), ("short", 7), ("EPIPE", 0)]);
         faults.push(Fault { site: "stdout.write".into(), path: String::new(), nth: rng.below(3) as u32, kind: kind.into(), arg });
     }
-    let inv = Invocation { opts, stdin: None, faults, sched: random_sched(rng), dir_key: rng.next() };
+    let inv = Invocation { opts, stdin: None, faults, sched: random_sched(rng), dir_key: rng.next(), pre_edits: vec![] };
     Case { family: "status".into(), world: w, invs: vec![inv] }
 }
 
@@ -564,21 +583,36 @@ pub fn gen_write(rng: &mut Rng) -> Case {
     if rng.chance(12) && !abort {
         add_permission_faults(rng, &mut w, &opts);
     }
-    let inv1 = Invocation { opts: opts.clone(), stdin: None, faults, sched: random_sched(rng), dir_key: rng.next() };
+    let inv1 = Invocation { opts: opts.clone(), stdin: None, faults, sched: random_sched(rng), dir_key: rng.next(), pre_edits: vec![] };
     let mut invs = vec![inv1];
     let more = rng.below(3);
     if more >= 1 {
-        // second write pass, no faults: nothing already formatted may be rewritten
+        // second write pass, no faults: nothing already formatted may be rewritten — and a file
+        // the user has edited in between must be formatted again
         let mut o2 = opts.clone();
         o2.num_threads = random_threads(rng);
-        invs.push(Invocation { opts: o2, stdin: None, faults: vec![], sched: random_sched(rng), dir_key: rng.next() });
+        let mut pre_edits = Vec::new();
+        if rng.chance(45) && !cands.is_empty() {
+            let f: &String = rng.pick(&cands);
+            if w.files.contains_key(f.as_str()) {
+                pre_edits.push((f.to_string(), rng.pick(UNFORMATTED).as_bytes().to_vec()));
+            }
+        }
+        invs.push(Invocation { opts: o2, stdin: None, faults: vec![], sched: random_sched(rng), dir_key: rng.next(), pre_edits });
     }
     if more >= 2 {
         let mut o3 = opts.clone();
         o3.check = true;
         o3.num_threads = random_threads(rng);
         o3.output_format = Some("summary".into());
-        invs.push(Invocation { opts: o3, stdin: None, faults: vec![], sched: random_sched(rng), dir_key: rng.next() });
+        let mut pre_edits = Vec::new();
+        if rng.chance(30) && !cands.is_empty() {
+            let f: &String = rng.pick(&cands);
+            if w.files.contains_key(f.as_str()) {
+                pre_edits.push((f.to_string(), rng.pick(UNFORMATTED).as_bytes().to_vec()));
+            }
+        }
+        invs.push(Invocation { opts: o3, stdin: None, faults: vec![], sched: random_sched(rng), dir_key: rng.next(), pre_edits });
     }
     Case { family: "write".into(), world: w, invs }
 }
@@ -696,7 +730,7 @@ pub fn gen_config(rng: &mut Rng) -> Case {
             faults.push(fault("fs.read", c, "EACCES"));
         }
     }
-    let inv = Invocation { opts, stdin, faults, sched: random_sched(rng), dir_key: rng.next() };
+    let inv = Invocation { opts, stdin, faults, sched: random_sched(rng), dir_key: rng.next(), pre_edits: vec![] };
     Case { family: "config".into(), world: w, invs: vec![inv] }
 }
 
@@ -834,7 +868,7 @@ fn gen_select_once(rng: &mut Rng) -> Case {
         let f: String = rng.pick(&all);
         faults.push(fault("fs.canonicalize", &f, "EIO"));
     }
-    let inv = Invocation { opts, stdin: None, faults, sched: random_sched(rng), dir_key: rng.next() };
+    let inv = Invocation { opts, stdin: None, faults, sched: random_sched(rng), dir_key: rng.next(), pre_edits: vec![] };
     Case { family: "select".into(), world: w, invs: vec![inv] }
 }
 
@@ -932,6 +966,6 @@ pub fn gen_stdin(rng: &mut Rng, big: bool) -> Case {
         }
         _ => {}
     }
-    let inv = Invocation { opts, stdin: Some(input), faults, sched: random_sched(rng), dir_key: rng.next() };
+    let inv = Invocation { opts, stdin: Some(input), faults, sched: random_sched(rng), dir_key: rng.next(), pre_edits: vec![] };
     Case { family: "stdin".into(), world: w, invs: vec![inv] }
 }
